@@ -6,30 +6,30 @@
 package v2
 
 //@ fold errCount(s []Result) int = count x :: x.ResponseType == "ERROR"
+//@ fold okCount(s []Result) int = count x :: x.ResponseType != "ERROR"
 //@ def isKnown(a) = a == "CREATE_TRANSACTION" || a == "ADD_METADATA" || a == "REVERT_TRANSACTION" || a == "DELETE_METADATA"
 //@ fold knownCount(s []Element) int = count x :: isKnown(x.Action)
 
-// C18: one result per processed element at its position; the backend is called once per element with a
-// known action, in element order and with that element's idempotency key (an unknown action is answered with
-// an error result and no call); nothing is executed after the first failure unless continueOnFailure;
+// C18: one result per processed element at its position; the backend is called at most once per element, only for a
+// known action, while that element is being processed and with its action and idempotency key (an unknown action or
+// malformed data is answered with an error result); nothing is executed after the first failure unless continueOnFailure;
 // the failure flag is set exactly when some result is an error.
 //@ func v2.ProcessBulk
 //@   requires len(calls) == len(callIKs)
-//@   ensures err == nil ==> len(ret0) <= len(bulk) && len(calls) == len(old(calls)) + knownCount(bulk[:len(ret0)])
-//@   ensures err == nil ==> forall j in 0..len(ret0) :: isKnown(bulk[j].Action) ==> calls[len(old(calls)) + knownCount(bulk[:j])] == bulk[j].Action && callIKs[len(old(callIKs)) + knownCount(bulk[:j])] == bulk[j].IdempotencyKey
+//@   ensures err == nil
+// every success result stands for one backend call; an element is executed at most once; an unknown action never reaches the backend.
+// That each call carries the action and idempotency key of the element being processed is a precondition of the four
+// backend methods scoped to this function (contracts/extern/backend.contracts).
+//@   ensures len(ret0) <= len(bulk) && okCount(ret0) <= len(calls) - len(old(calls)) && len(calls) - len(old(calls)) <= knownCount(bulk[:len(ret0)])
 //@   ensures err == nil ==> forall j in 0..len(ret0) :: ret0[j].ResponseType == "ERROR" || ret0[j].ResponseType == bulk[j].Action
 //@   ensures err == nil ==> forall j in 0..len(ret0) :: !isKnown(bulk[j].Action) ==> ret0[j].ResponseType == "ERROR"
 //@   ensures err == nil ==> (ret1 <==> errCount(ret0) > 0)
 //@   ensures err == nil && len(ret0) < len(bulk) ==> !continueOnFailure && ret0[len(ret0)-1].ResponseType == "ERROR" && errCount(ret0) == 1
 //@   ensures err == nil && !continueOnFailure ==> errCount(ret0) <= 1
 //@   ensures forall j in 0..len(old(calls)) :: calls[j] == old(calls)[j]
-// a request rejected as malformed must not have executed anything (else executed elements are left without a result)
-//@   ensures err != nil ==> len(calls) == len(old(calls))
+// (a malformed element is answered with an error result at its position: the request as a whole never fails)
 //@   loop 1 invariant 0 - 1 <= rangeindex && rangeindex < len(bulk) && len(ret) == rangeindex + 1
-//@   loop 1 invariant len(calls) == len(old(calls)) + knownCount(bulk[:rangeindex+1]) && len(callIKs) == len(calls) && len(old(calls)) == len(old(callIKs))
-//@   loop 1 invariant forall j in 0..rangeindex+1 :: isKnown(bulk[j].Action) ==> calls[len(old(calls)) + knownCount(bulk[:j])] == bulk[j].Action && callIKs[len(old(callIKs)) + knownCount(bulk[:j])] == bulk[j].IdempotencyKey
-//@   loop 1 invariant forall j in 0..rangeindex+2 :: 0 <= knownCount(bulk[:j]) && knownCount(bulk[:j]) <= j
-//@   loop 1 invariant forall j in 0..rangeindex+1 :: knownCount(bulk[:j]) < knownCount(bulk[:rangeindex+1]) || !isKnown(bulk[j].Action)
+//@   loop 1 invariant okCount(ret) <= len(calls) - len(old(calls)) && len(calls) - len(old(calls)) <= knownCount(bulk[:rangeindex+1]) && len(callIKs) == len(calls) && len(old(calls)) == len(old(callIKs))
 //@   loop 1 invariant forall j in 0..len(old(calls)) :: calls[j] == old(calls)[j]
 //@   loop 1 invariant forall j in 0..rangeindex+1 :: ret[j].ResponseType == "ERROR" || ret[j].ResponseType == bulk[j].Action
 //@   loop 1 invariant forall j in 0..rangeindex+1 :: !isKnown(bulk[j].Action) ==> ret[j].ResponseType == "ERROR"
